@@ -98,3 +98,74 @@ func VerifC16_int_inverse_pairs() {
 	}
 	verifReach("C16/inverse/end")
 }
+
+// sec2gmt / sec2gmtdate print what the proleptic Gregorian calendar says and gmt2sec parses it back,
+// across years 1..9999: x is a symbolic offset in one of a palette of 60-second windows (epoch,
+// negative times, leap days of 2000 / 1600, the non-leap Februaries of 1900 / 2100, a year end, 2038,
+// both ends of the int64-nanosecond range, the first minute of year 1 and the last of year 9999) that
+// the solver enumerates completely.  Reference: days-from-civil arithmetic written here (not the
+// time package).  With n decimals an integer instant shows n zeros.
+func c16Civil(days int64) (y, m, d int64) { // Howard Hinnant's civil_from_days
+	z := days + 719468
+	era := z / 146097
+	if z < 0 {
+		era = (z - 146096) / 146097
+	}
+	doe := z - era*146097
+	yoe := (doe - doe/1460 + doe/36524 - doe/146096) / 365
+	y = yoe + era*400
+	doy := doe - (365*yoe + yoe/4 - yoe/100)
+	mp := (5*doy + 2) / 153
+	d = doy - (153*mp+2)/5 + 1
+	m = mp + 3
+	if m > 12 {
+		m -= 12
+	}
+	if m <= 2 {
+		y++
+	}
+	return
+}
+
+func c16Pad(v int64, w int) string {
+	s := ""
+	for i := 0; i < w; i++ {
+		s = string(rune('0'+v%10)) + s
+		v /= 10
+	}
+	return s
+}
+
+//verif:opts maxpaths=20000
+func VerifC16_gmt_calendar_and_inverse() {
+	bases := []int64{-30, 951782370, 946684770, 4107542370, 2147483618, -2203891230, -11670998430, -62135596800, 253402300740,
+		9223372036 - 30, -9223372036 - 30}
+	b := bases[verifChoice("window", len(bases))]
+	off := verifInt64("offset")
+	verifAssume(off >= 0 && off < 60)
+	x := verifConcretize(b+off, 64)
+	days, rem := x/86400, x%86400
+	if rem < 0 {
+		days, rem = days-1, rem+86400
+	}
+	y, m, d := c16Civil(days)
+	date := c16Pad(y, 4) + "-" + c16Pad(m, 2) + "-" + c16Pad(d, 2)
+	want := date + "T" + c16Pad(rem/3600, 2) + ":" + c16Pad(rem/60%60, 2) + ":" + c16Pad(rem%60, 2) + "Z"
+	g := BIF_sec2gmt_unary(mlrval.FromInt(x))
+	verifAssert(g.String() == want, "C16/gmt/sec2gmt-is-the-gregorian-calendar")
+	verifAssert(BIF_sec2gmtdate(mlrval.FromInt(x)).String() == date, "C16/gmt/sec2gmtdate-is-the-date-part")
+	back := BIF_gmt2sec(mlrval.FromString(want))
+	f, ok := back.GetNumericToFloatValue()
+	verifAssert(ok && f == float64(x), "C16/gmt/gmt2sec-inverts-sec2gmt")
+	n := verifChoice("decimals", 10)
+	gn := BIF_sec2gmt_binary(mlrval.FromInt(x), mlrval.FromInt(int64(n)))
+	wn := want
+	if n > 0 {
+		wn = want[:len(want)-1] + "." + c16Pad(0, n) + "Z"
+	}
+	verifAssert(gn.String() == wn, "C16/gmt/n-decimals-of-an-integer-instant-are-zeros")
+	// non-numeric and empty inputs are left as they are
+	verifAssert(BIF_sec2gmt_unary(mlrval.FromString("abc")).String() == "abc", "C16/gmt/text-left-unchanged")
+	verifAssert(BIF_sec2gmt_unary(mlrval.VOID).String() == "", "C16/gmt/empty-left-unchanged")
+	verifReach("C16/gmt/end")
+}
